@@ -388,7 +388,8 @@ def real_generator(v: Valuation, w: "Witness"):
     """the repo's own cpp.ExtendedKalmanFilter / cpp.Model, constructed by evaluating its __init__ (fv.minieval) on the witness model"""
     m = WModel(v)
     holder = {}
-    natives = {"BasicBlock": WBlock, "Symbol": WSym, "diff": (lambda a, b, *r: a.diff(b)), "common": _WCommonProxy(lambda: holder.get("ev")), "sympy": None}
+    natives = {"BasicBlock": WBlock, "Symbol": WSym, "diff": (lambda a, b, *r: a.diff(b)), "common": _WCommonProxy(lambda: holder.get("ev")), "sympy": None,
+               "ccode": (lambda e, *a, **k: _cprint(e))}
     ev = w.evaluator(natives=natives)
     holder["ev"] = ev
     cfg_node = ev.classes.get("cpp", {}).get("Config")
